@@ -238,6 +238,56 @@ class Inliner:
         return body, dropped
 
     @staticmethod
+    def returns_in_tail_position(f):
+        """every `return e;` of f (at least one, all with a value) is the last thing the function does on its path: not inside
+        a loop, and followed in its block (and in the blocks around it) only by another `case` / `default` label or nothing.
+        Then `x = f(..)` is f's body with each `return e` replaced by `x = e`."""
+        rs = _lambda_free_returns(f.body)
+        if not rs or any(r.get("e") is None for r in rs):
+            return False
+        parent = {}
+        for x in walk(f.body):
+            for c in kids(x):
+                parent[id(c)] = x
+        for r in rs:
+            node = r
+            while True:
+                p = parent.get(id(node))
+                if p is None:
+                    break
+                k = p.get("k")
+                if k in ("For", "While", "Do", "ForRange", "Lambda", "Try"):
+                    return False
+                if k == "Block":
+                    st = p.get("s", [])
+                    pos = next((i for i, x in enumerate(st) if x is node), None)
+                    if pos is None:
+                        return False
+                    if pos + 1 < len(st) and st[pos + 1].get("k") not in ("Case", "Default"):
+                        return False
+                node = p
+        # all paths return: the last statement of the body is a return / an if-else or a switch with default that ends in returns
+        def ends(st):
+            k = st.get("k")
+            if k == "Return":
+                return True
+            if k == "Block":
+                return bool(st.get("s")) and ends(st["s"][-1])
+            if k == "If":
+                return st.get("else") is not None and ends(st["then"]) and ends(st["else"])
+            if k == "Switch":
+                b = st.get("body") or {}
+                labels = [x for x in b.get("s", []) if x.get("k") in ("Case", "Default")]
+                return any(x.get("k") == "Default" for x in labels) and bool(b.get("s")) and ends_case(b["s"][-1])
+            return False
+
+        def ends_case(st):
+            if st.get("k") in ("Case", "Default"):
+                return isinstance(st.get("s"), dict) and ends(st["s"])
+            return ends(st)
+        return bool(f.body.get("s")) and ends(f.body["s"][-1])
+
+    @staticmethod
     def pure_expr(f):
         """the returned expression if the body of f is `return <expr>;` only"""
         st = f.body.get("s", [])
@@ -394,7 +444,7 @@ class Inliner:
                 blocks[nbk["id"]] = nbk
             return True
 
-        def expand(call, cal, mode):
+        def expand(call, cal, mode, target=None, pre_ids=()):
             """-> (block node with bindings + body, cloned returned expression or None)"""
             cal = self.inline(cal, want, depth - 1, stack + (me,))
             ok, ret = self.tail_return_only(cal)
@@ -408,7 +458,9 @@ class Inliner:
             stmts = cal.body.get("s", [])
             drop = set()
             rexpr = None
-            if not ok and mode == "stmt":
+            if mode == "multi":
+                pass        # returns stay where they are and become assignments to the target (below)
+            elif not ok and mode == "stmt":
                 # early returns: `if(c) { A; return; } B` is `if(c) { A } else { B }` (the CFG keeps its own edges)
                 stmts, drop = self.early_returns_structured(cal)
                 drop = set(drop)
@@ -418,11 +470,39 @@ class Inliner:
                 if ret.get("e") is not None:
                     rexpr = self._clone(ret["e"], off, dmap, subst, new_id)
             cloned = [self._clone(s, off, dmap, subst, new_id) for s in stmts]
+            if mode == "multi":
+                def to_assign(n):
+                    if isinstance(n, list):
+                        for x in n:
+                            to_assign(x)
+                        return
+                    if not isinstance(n, dict):
+                        return
+                    if n.get("k") == "Lambda":
+                        return
+                    if n.get("k") == "Return":
+                        e_ = n.get("e")
+                        lhs = self._fresh_copy(target, new_id)
+                        if "i" not in lhs:
+                            lhs["i"] = new_id()
+                        rid, rl = n.get("i"), n.get("l")
+                        n.clear()
+                        n.update({"k": "Assign", "i": rid, "l": rl, "op": "=", "lhs": lhs, "rhs": e_, "t": lhs.get("t"), "from_return": True})
+                        return
+                    for v_ in list(n.values()):
+                        if isinstance(v_, (dict, list)):
+                            to_assign(v_)
+                to_assign(cloned)
             extra = []
             if rexpr is not None and mode == "stmt" and _has_effects(rexpr):
                 cloned.append(rexpr)            # `return g(x);` of a helper whose value the caller ignores
             blk = {"k": "Block", "i": new_id(), "l": call.get("l"), "s": decls + cloned, "inl": cal.qn, "inl_name": cal.name}
-            splice_cfg(call["i"], [d["i"] for d in decls], cal, off, drop)
+            if pre_ids:
+                for b_ in blocks.values():
+                    for e_ in pre_ids:
+                        if e_ in b_["el"]:
+                            b_["el"].remove(e_)
+            splice_cfg(call["i"], list(pre_ids) + [d["i"] for d in decls], cal, off, drop)
             self.log.append((fn.qn, cal.name, call.get("l"), mode))
             st["done"] += 1
             return blk, rexpr
@@ -456,11 +536,43 @@ class Inliner:
                         return None
                     cal2 = self.inline(cal, want, depth - 1, stack + (me,))
                     ok, ret = self.tail_return_only(cal2)
-                    if not ok or ret is None or ret.get("e") is None or self.pure_expr(cal2) is not None:
+                    if self.pure_expr(cal2) is not None:
                         return None
-                    blk, rexpr = expand(c, cal, "value")
-                    slot[0][slot[1]] = rexpr
-                    return [blk, s]
+                    if ok and ret is not None and ret.get("e") is not None:
+                        blk, rexpr = expand(c, cal, "value")
+                        slot[0][slot[1]] = rexpr
+                        return [blk, s]
+                    if self.returns_in_tail_position(cal2):
+                        # several returns (switch cases, if / else): `x = f(..)` is the body with `return e` -> `x = e`
+                        pre = []
+                        if k == "Decl":
+                            var = s["vars"][0]
+                            target = {"k": "Ref", "t": var.get("t"), "n": var["n"], "d": var["d"], "dk": "local"}
+                            var["init"] = None
+                            var.pop("const", None)
+                            pre = [s]
+                            post = []
+                            drop_el = []
+                        elif k == "Assign":
+                            target = s["lhs"]
+                            post = []
+                            drop_el = [s["i"]]
+                        else:   # return f(..)
+                            nd = next(_fresh_decl)
+                            target = {"k": "Ref", "t": c.get("t"), "n": "result_of_" + cal.name, "d": nd, "dk": "local"}
+                            pre = [{"k": "Decl", "i": new_id(), "l": s.get("l"), "vars": [{"k": "Var", "n": "result_of_" + cal.name, "d": nd, "t": c.get("t"), "l": s.get("l")}]}]
+                            s["e"] = self._fresh_copy(target, new_id)
+                            if "i" not in s["e"]:
+                                s["e"]["i"] = new_id()
+                            post = [s]
+                            drop_el = []
+                        blk, _ = expand(c, cal, "multi", target=target, pre_ids=[x["i"] for x in pre if x.get("k") == "Decl" and k == "Decl"] )
+                        for e_ in drop_el:
+                            for b_ in blocks.values():
+                                if e_ in b_["el"]:
+                                    b_["el"].remove(e_)
+                        return pre + [blk] + post
+                    return None
             return None
 
         def rewrite(n):
@@ -1272,14 +1384,42 @@ def factory_forwarding(view, ctors):
         return [("unknown", "%d construction sites of the product found" % len(sites))], ""
     site = sites[0]
     args = site.get("a", [])
-    used = set()
+    pds = {p["d"] for p in f.params}
+
+    def params_in(n, depth=0):
+        """parameters an expression is computed from, through never-written locals"""
+        out = set()
+        for x in walk(n or {}):
+            if x.get("k") == "Ref" and x.get("d") in pds:
+                out.add(x["d"])
+            elif x.get("k") == "Ref" and x.get("dk") == "local" and view.is_const_local(x["d"]) and depth < 6:
+                out |= params_in(view.locals[x["d"]]["init"], depth + 1)
+        return out
+    # a parameter is forwarded if it flows into the construction, or into a call on the product (a setter after construction)
+    forwarded = set()
+    for a in args:
+        forwarded |= params_in(a)
+    product = {d for d, var in view.locals.items() if var.get("init") is not None and any(x is site or x.get("i") == site.get("i") for x in walk(var["init"]))}
+    other_use = set()
     for x in walk(f.body):
-        if x.get("k") == "Ref" and x.get("dk") == "param":
-            used.add(x["d"])
+        if x.get("k") in ("MCall", "Call", "OpCall", "Construct", "TempObj") and x is not site:
+            recv = x.get("obj")
+            on_product = recv is not None and any(y.get("k") == "Ref" and y.get("d") in product for y in walk(recv))
+            ps = set()
+            for a in x.get("a", []):
+                ps |= params_in(a)
+            if on_product:
+                forwarded |= ps
+            elif not (x.get("callee") or "").endswith("FEAT::assertion") and not any(y is x for a in args for y in walk(a)):
+                other_use |= ps
     problems = []
     for p in f.params:
-        if p.get("n") and p["d"] not in used:
-            problems.append(("dropped", "parameter `%s` is never used: the product is built without it (the constructor's default takes its place)" % p["n"]))
+        if not p.get("n") or p["d"] in forwarded:
+            continue
+        if p["d"] in other_use:
+            problems.append(("unknown", "parameter `%s` does not reach the construction of the product but is handed to another call, which is not modelled" % p["n"]))
+        else:
+            problems.append(("dropped", "parameter `%s` does not reach the product: it is built without it (the constructor's default / a constant takes its place)" % p["n"]))
     def arg_param(a):
         av = view.value(a)
         while av.get("k") in ("Construct", "TempObj") and len(av.get("a", [])) == 1:
